@@ -16,7 +16,7 @@ from vx.units._cwrite import add_classwrite
 from vx.units.rdecode import PLAIN, LOADS, STORES
 
 PROPS = ['C02']
-RLIMIT = 100
+RLIMIT = 300
 MULTIPLE_ERRORS = 2
 W = 'duke/src/simple_class_writer.rs'
 CC = 'duke/src/class_constants.rs'
